@@ -148,6 +148,16 @@ var unsup3 = []string{
 	"CVSS:3.0/AV:N/AC:L/PR:N/UI:R/S:U/C:H/I:N/A:N/QQ:H/E:F",
 	"CVSS:3.1/Au:N/AV:P/AC:L/PR:H/UI:N/S:U/C:N/I:L/A:H",
 }
+var unsupBase3 = []string{
+	"CVSS:3.1/AV:A/AC:H/PR:L/UI:N/S:C/C:L/I:H/A:L/E:P",
+	"CVSS:3.0/AV:N/AC:L/PR:N/UI:R/S:U/C:H/I:N/A:N/MAV:L",
+	"CVSS:3.1/RC:C/AV:P/AC:L/PR:H/UI:N/S:U/C:N/I:L/A:H",
+}
+var unsupBase2 = []string{
+	"AV:N/AC:L/Au:N/C:N/I:N/A:C/E:F",
+	"AV:L/AC:H/Au:M/C:C/I:P/A:N/CDP:L",
+	"AV:A/AC:M/Au:S/C:P/I:C/A:P/RC:UR",
+}
 var unsup2 = []string{
 	"AV:N/AC:L/Au:N/C:N/I:N/A:C/ZZ:N",
 	"AV:L/AC:H/Au:M/C:C/I:P/A:N/QQ:H",
@@ -186,7 +196,7 @@ var Ops = []Op{
 	{"v3 decode rejected for an unsupported metric", false, func(e *Env, slot int) func() string {
 		return func() string {
 			m, err := v3.NewEnvironmental().Decode(unsup3[slot%len(unsup3)])
-			m2, err2 := v3.NewBase().Decode(vec3[slot%len(vec3)]) // temporal and environmental names at the base decoder
+			m2, err2 := v3.NewBase().Decode(unsupBase3[slot%len(unsupBase3)]) // a temporal / environmental name at the base decoder
 			return fmt.Sprint(m == nil, errStr(err), m2 == nil, errStr(err2))
 		}
 	}},
@@ -281,7 +291,7 @@ var Ops = []Op{
 	{"v2 decode rejected for an unsupported metric", false, func(e *Env, slot int) func() string {
 		return func() string {
 			m, err := v2.NewEnvironmental().Decode(unsup2[slot%len(unsup2)])
-			m2, err2 := v2.NewBase().Decode(vec2[slot%len(vec2)])
+			m2, err2 := v2.NewBase().Decode(unsupBase2[slot%len(unsupBase2)])
 			return fmt.Sprint(m == nil, errStr(err), m2 == nil, errStr(err2))
 		}
 	}},
